@@ -5,9 +5,9 @@ CONSTANTS
   MaxSeg = 2
   WatchPerSegment = FALSE
   SwapInstallsOld = TRUE
-  ResetOnRoll = FALSE
+  ResetOnRoll = TRUE
   Reader = {r1, r2}
 INVARIANTS TypeOK AckedDurable AckedPublished PublishedFindable ReaderNeverMisses
-PROPERTY PublishedMonotone
+PROPERTY PublishedMonotone AckStable
 VIEW ViewNoHist
 CHECK_DEADLOCK FALSE
